@@ -18,7 +18,7 @@ import struct
 
 from vlib import core, corr
 
-DEPENDS = ["Timers", "TimersP", "TimersFull", "TimersFullSpec", "TimersFullP", "TimersFullLink", "Recovery", "RecBase", "C09Consts", "Base", "Tok", "C09"]
+DEPENDS = ["Timers", "TimersP", "TimersFull", "TimersFullSpec", "TimersFullP", "TimersFullLink", "TimersFullAck", "Recovery", "RecBase", "AckQueue", "C12Consts", "C09Consts", "Base", "Tok", "C09"]
 GENERATORS = ["c09_consts"]
 TRUSTED_BASE = [
     "extraction (ExtrOcamlBasic only; Z kept inductive) + coq/extract/driver.ml for running coq/model/Timers.v",
@@ -64,14 +64,18 @@ _PR = []
 
 
 def PACING_RESET():
-    """Does the tree under check clear _pacing_at at the top of the non-closing branch of datagrams_to_send?  Read from the
-    generated coq/gen/C09Consts.v (tools/gen/c09_consts.py, probed from the source by the build step of this run)."""
+    """Does the tree under check clear _pacing_at at the top of the non-closing branch of datagrams_to_send?  Probed from the
+    source of the tree under check by tools/gen/c09_consts.py (the same probe that writes coq/gen/C09Consts.v in the build step of
+    this run; asked directly so that a concurrent check of another tree cannot change the answer)."""
     if not _PR:
+        import importlib.util
         import os
         try:
-            txt = open(os.path.join(core.VERIF, "coq", "gen", "C09Consts.v")).read()
-            _PR.append("PACING_RESET : bool := true" in txt)
-        except OSError:
+            spec = importlib.util.spec_from_file_location("c09_consts_probe", os.path.join(core.VERIF, "tools", "gen", "c09_consts.py"))
+            mod = importlib.util.module_from_spec(spec)
+            spec.loader.exec_module(mod)
+            _PR.append(bool(mod.read_consts()["PACING_RESET"]))
+        except Exception:  # noqa: BLE001  (the generator failed closed: the build step has already reported it)
             _PR.append(False)
     return _PR[0]
 
